@@ -26,6 +26,7 @@ pub mod c07;
 pub mod c08;
 pub mod c09;
 pub mod c10;
+pub mod c10s;
 pub mod c11;
 pub mod c12;
 pub mod c13;
@@ -39,7 +40,7 @@ pub mod c20;
 
 /// Dispatch a native replay by harness name.
 pub fn replay(name: &str, s: &mut src::ReplaySrc) -> bool {
-    c00::replay(name, s) || c01::replay(name, s) || c02::replay(name, s) || c03::replay(name, s) || c03e::replay(name, s) || c05::replay(name, s) || c06::replay(name, s) || c07::replay(name, s) || c18::replay(name, s) || c19::replay(name, s) || c20::replay(name, s) || c08::replay(name, s) || c09::replay(name, s) || c10::replay(name, s) || c15::replay(name, s) || c16::replay(name, s) || c11::replay(name, s) || c12::replay(name, s) || c13::replay(name, s) || c14::replay(name, s) || c17::replay(name, s)
+    c00::replay(name, s) || c01::replay(name, s) || c02::replay(name, s) || c03::replay(name, s) || c03e::replay(name, s) || c05::replay(name, s) || c06::replay(name, s) || c07::replay(name, s) || c18::replay(name, s) || c19::replay(name, s) || c20::replay(name, s) || c08::replay(name, s) || c09::replay(name, s) || c10::replay(name, s) || c10s::replay(name, s) || c15::replay(name, s) || c16::replay(name, s) || c11::replay(name, s) || c12::replay(name, s) || c13::replay(name, s) || c14::replay(name, s) || c17::replay(name, s)
 }
 
 pub fn all_names() -> Vec<&'static str> {
@@ -57,6 +58,7 @@ pub fn all_names() -> Vec<&'static str> {
     v.extend_from_slice(c08::NAMES);
     v.extend_from_slice(c09::NAMES);
     v.extend_from_slice(c10::NAMES);
+    v.extend_from_slice(c10s::NAMES);
     v.extend_from_slice(c15::NAMES);
     v.extend_from_slice(c16::NAMES);
     v.extend_from_slice(c11::NAMES);
